@@ -171,7 +171,13 @@ def run(facts, rep, ctx):
                 for x in walk(sh):
                     if x[0] == "bin" and x[1] == "Shl" and x[2][0] == "const" and x[2][1] == 1:
                         shv = x[3]
-                key.append((fmt(norm(src))[:40], fmt(norm(shv))[:60] if shv else None, ct[1]))
+                direct = None
+                if shv is not None:
+                    z = shv
+                    while z[0] in ("cast", "ref", "deref"):
+                        z = z[1]
+                    direct = "item:next" if (z[0] == "field" and z[1][0] == "downcast" and z[1][1][0] == "call" and z[1][1][1].endswith("::next")) else None
+                key.append((fmt(norm(src))[:40], direct, ct[1]))
         per_bit.setdefault(tuple(key), []).append((pushes_after, kinds))
     good = bool(per_bit)
     desc = []
